@@ -183,6 +183,72 @@ theorem extra_travels_perm (bs : Nat) (hbs : 0 < bs) (n : Nat) (order : List Nat
   rw [loader_flatten bs hbs]
   exact hperm.map _
 
+/-! ### the data set classes as functions: every class delivers `td[idxs]` for ARBITRARY index lists -/
+
+theorem row_get? (td : Cols β) (d : β) (i : Nat) (hk : (td.map (·.1)).Nodup) (kc : String × List β) (h : kc ∈ td) :
+    (td.row d i).get? kc.1 = some (kc.2.getD i d) := by
+  induction td with
+  | nil => simp at h
+  | cons x xs ih =>
+    simp only [List.map_cons, List.nodup_cons] at hk
+    rcases List.mem_cons.mp h with rfl | h'
+    · simp [Cols.row, Dict.get?]
+    · have hne : (x.1 == kc.1) = false := by
+        have : x.1 ≠ kc.1 := fun e => hk.1 (e ▸ List.mem_map_of_mem (f := (·.1)) h')
+        simpa using this
+      have := ih hk.2 h'
+      simp only [Cols.row, Dict.get?, List.map_cons, List.find?_cons, hne] at this ⊢
+      exact this
+
+theorem tddInit_getitem (td : Cols β) (d : β) (len i : Nat) (hi : i < len) :
+    tddGetitem (tddInit td d len) i = td.row d i := by
+  simp [tddGetitem, tddInit, Params.dsInitRowsInOrder, List.getD_eq_getElem?_getD, hi]
+
+/-- **C17 `tdd_fetch_eq_index`**: `TensorDictDataset` (disassemble in `__init__`, `__getitem__` per index, stack in
+`collate_fn`) delivers for ANY non-empty index list — unsorted, with gaps, with repetitions — exactly the
+TensorDict indexed with that list: every key, every column entry `i ↦ value[i]` in the order given. -/
+theorem tdd_fetch_eq_index (td : Cols β) (d : β) (len : Nat) (idxs : List Nat) (hne : idxs ≠ [])
+    (hk : (td.map (·.1)).Nodup) (hi : ∀ i ∈ idxs, i < len) :
+    tddFetch td d len idxs = tdIndex td d idxs := by
+  have hrows : idxs.map (tddGetitem (tddInit td d len)) = idxs.map (td.row d) :=
+    List.map_congr_left (fun i h => tddInit_getitem td d len i (hi i h))
+  simp only [tddFetch, hrows, collate, Params.dsCollateInOrder, if_true]
+  match idxs, hne with
+  | i0 :: is, _ =>
+    simp only [List.map_cons, tdIndex, Cols.row, List.map_map]
+    apply List.map_congr_left
+    intro kc hkc
+    have hg : ∀ i, ((td.row d i).get? kc.1).getD d = kc.2.getD i d := fun i => by
+      rw [row_get? td d i hk kc hkc]; rfl
+    simp only [Function.comp, Prod.mk.injEq, true_and, List.cons.injEq]
+    refine ⟨hg i0, ?_⟩
+    apply List.map_congr_left
+    intro i _
+    exact hg i
+
+/-- **C17 `all_classes_agree`**: the three bundled classes return the same batch for the same index list. -/
+theorem all_classes_agree (td : Cols β) (d : β) (len : Nat) (idxs : List Nat) (hne : idxs ≠ [])
+    (hk : (td.map (·.1)).Nodup) (hi : ∀ i ∈ idxs, i < len) :
+    fastGetitems td d idxs = tdIndex td d idxs ∧ fastGenGetitems td d idxs = tdIndex td d idxs ∧
+    tddFetch td d len idxs = tdIndex td d idxs :=
+  ⟨by simp [fastGetitems, Params.dsFastTdDirect], by simp [fastGenGetitems, Params.dsFastGenDirect],
+   tdd_fetch_eq_index td d len idxs hne hk hi⟩
+
+/-- **C17 `loader_roundtrip_perm`**: for an ARBITRARY index sequence (any sampler: sequential, shuffled, a `Subset`,
+with replacement) and any batch size, the instances a loader returns, in order, are the index sequence mapped
+through the data set; for a permutation of `0..n-1` every instance is returned exactly once. -/
+theorem loader_roundtrip_perm (bs : Nat) (hbs : 0 < bs) (order : List Nat) (item : Nat → α) :
+    (loader bs order item).flatten = order.map item ∧
+    ∀ n, order.Perm (List.range n) → ((loader bs order item).flatten).Perm ((List.range n).map item) := by
+  refine ⟨loader_flatten bs hbs order item, fun n hp => ?_⟩
+  rw [loader_flatten bs hbs]
+  exact hp.map _
+
+/-- … and batch by batch: the `j`-th batch is the `j`-th chunk of the index sequence mapped through the data set. -/
+theorem loader_batches (bs : Nat) (order : List Nat) (item : Nat → α) :
+    loader bs order item = (chunks bs order).map (List.map item) := by
+  simp [loader, fetch_eq]
+
 /-! ### histories on shared items (re-wrapping the same data set) -/
 
 theorem Dict.get?_set_same (d : Dict β) (k : String) (v : β) : (d.set k v).get? k = some v := by
@@ -304,6 +370,10 @@ theorem eval_call_roundtrip (inner : List α → List (β × List Int)) (g : α 
 example : padRow 4 [7, 8] = [7, 8, 0, 0] := by decide
 example : evalCall (fun xs : List Nat => xs.map (fun x => (10 * x, List.replicate (1 + xs.length) (Int.ofNat x))))
     [[1, 2], [3]] = ([10, 20, 30], [[1, 1, 1], [2, 2, 2], [3, 3, 0]]) := by decide
+
+example : tddFetch [("id", [10, 11, 12, 13]), ("x", [5, 6, 7, 8])] 0 4 [0, 3, 1, 1] =
+    [("id", [10, 13, 11, 11]), ("x", [5, 8, 6, 6])] := by decide
+example : fastGetitems [("id", [10, 11, 12, 13])] 0 [0, 2, 1, 3] = [("id", [10, 12, 11, 13])] := by decide
 
 /-- wrap with 100+i, read, wrap the same store with 200+i, read: the second pass sees 200+i -/
 example :
